@@ -1,7 +1,7 @@
 """C23 Mutable share containers behave like byte arrays -- contracts on storage/mutable.py"""
 import os
 import z3
-from pyvc.harness import Spec, IntK, BoolK, BytesArrK, Outcome, Lemma
+from pyvc.harness import Spec, IntK, BoolK, BytesArrK, ChoiceK, Outcome, Lemma
 from pyvc.values import *  # noqa
 from pyvc.models_ext2 import FileObj, PathTok
 from contracts.lib import *  # noqa
@@ -241,5 +241,285 @@ class ChangeContainerSize(_MSF):
         return [("canary", elo(c1) == elo(c))]
 
 
+class WriteV(_MSF):
+    """writev for a write vector of ANY length (loop cut by an invariant; each
+    _write_share_data call is replaced by its contract = modular verification)."""
+    method = "writev"
+    cross_check = 30
+
+    def inputs(self):
+        return {"file0": FileK(gen_container), "datav": SListK([("offset", "int", 0), ("data", "bytes")]),
+                "new_length": IntK(0, rnd=lambda r: r.randint(0, 120)), "has_new_length": ChoiceK([False, True])}
+
+    def cases(self):
+        return [{"has_new_length": False}, {"has_new_length": True}]
+
+    @property
+    def raises(self):
+        from allmydata.storage.common import DataTooLargeError
+        return (DataTooLargeError,)
+
+    def requires(self, I, a):
+        c, n = as_arr(a["file0"])
+        return WF(c, n)
+
+    def _nl(self, a):
+        return a["new_length"] if a["has_new_length"] else None
+
+    def config(self):
+        me = self
+        w = WriteShareData()
+
+        def inv(I, env):
+            st = I.disk["home"]
+            c0, n0 = as_arr(me._a["file0"])
+            return z3.And(WF(st.content, Z(st.length)), leases_same(c0, st.content), header_same(c0, st.content))
+
+        def havoc_file(I, env):
+            st = I.disk["home"]
+            st.content = z3.Array(fresh_name("loop_file"), IntS, IntS)
+            st.length = z3.Int(fresh_name("loop_flen"))
+        from pyvc.interp import LoopInv
+        return {"overrides": {"MutableShareFile._write_share_data": contract_call(
+                    w, lambda I, args: {"offset": args[2], "data": args[3]})},
+                "loop_invs": {("MutableShareFile.writev", 0): LoopInv(inv, havoc_extra=havoc_file)}}
+
+    def run(self, I, a):
+        self._a = a
+        put_file(I, "home", a["file0"])
+        try:
+            v = I.call_value(self.target(I), [self.mk_self(I), a["datav"], self._nl(a)], {})
+            out = Outcome("return", v)
+        except PyRaise as pr:
+            out = Outcome("raise", exc=pr.exc, exc_cls=pr.cls)
+        out.post = {"file": file_post(I, "home")}
+        return out
+
+    def native(self, a):
+        from allmydata.storage.mutable import MutableShareFile
+        with TempDir() as d:
+            p = os.path.join(d, "share")
+            with open(p, "wb") as fh:
+                fh.write(a["file0"])
+            ms = object.__new__(MutableShareFile)
+            ms.home = p
+            out = native_outcome(lambda: ms.writev(list(a["datav"]), self._nl(a)))
+            out.post = {"file": open(p, "rb").read()}
+            return out
+
+    def ensures(self, I, a, out):
+        c, n = as_arr(a["file0"])
+        c1, n1 = as_arr(out.post["file"])
+        g = [("well-formed-after", WF(c1, n1)), ("leases-unchanged", leases_same(c, c1)),
+             ("enabler-and-nodeid-unchanged", header_same(c, c1))]
+        if out.kind == "return" and a["has_new_length"]:
+            g.append(("truncated-to-new-length", dl(c1) <= Z(a["new_length"])))
+        return g
+
+    def canary(self, I, a, out):
+        c, n = as_arr(a["file0"])
+        c1, n1 = as_arr(out.post["file"])
+        return [("canary", dl(c1) >= dl(c))]
+
+    def same_result(self, n, s):
+        from pyvc.runner import plain_equal
+        return plain_equal(n.post, s.post)
+
+
+class WriteVShapes(WriteV):
+    """exact array semantics of writev for write vectors of 0, 1 and 2 entries (bounded shape,
+    all offsets/lengths/bytes symbolic); longer vectors follow by induction on the same step."""
+    level = "B"
+    bound = "write vectors of length 0..2 (values unbounded)"
+    cross_check = 0
+
+    def inputs(self):
+        return {"file0": FileK(gen_container), "o1": IntK(0), "d1": BytesArrK(), "o2": IntK(0), "d2": BytesArrK(),
+                "new_length": IntK(0), "has_new_length": ChoiceK([False, True]), "nwrites": ChoiceK([0, 1, 2])}
+
+    def cases(self):
+        return [{"has_new_length": h, "nwrites": k} for h in (False, True) for k in (0, 1, 2)]
+
+    def config(self):
+        cfg = WriteV.config(self)
+        cfg["loop_invs"] = {}
+        return cfg
+
+    def requires(self, I, a):
+        c, n = as_arr(a["file0"])
+        MAX = self.msf_class().MAX_SIZE
+        return z3.And(WF(c, n), Z(a["o1"]) + as_arr(a["d1"])[1] <= MAX, Z(a["o2"]) + as_arr(a["d2"])[1] <= MAX)
+
+    def run(self, I, a):
+        a = dict(a)
+        a["datav"] = [(a["o1"], a["d1"]), (a["o2"], a["d2"])][:a["nwrites"]]
+        return WriteV.run(self, I, a)
+
+    def native(self, a):
+        a = dict(a)
+        a["datav"] = [(a["o1"], a["d1"]), (a["o2"], a["d2"])][:a["nwrites"]]
+        return WriteV.native(self, a)
+
+    def ensures(self, I, a, out):
+        c, n = as_arr(a["file0"])
+        c1, n1 = as_arr(out.post["file"])
+        if out.kind == "raise":
+            return [("no-DataTooLarge-under-valid-request", z3.BoolVal(False))]
+        # reference: growable byte array
+        length = dl(c)
+        byte = lambda i: view_at(c, i)
+        for (o, d) in [(a["o1"], a["d1"]), (a["o2"], a["d2"])][:a["nwrites"]]:
+            o = Z(o)
+            da, ln = as_arr(d)
+            byte = (lambda i, byte=byte, length=length, o=o, da=da, ln=ln:
+                    z3.If(z3.And(i >= o, i < o + ln), z3.Select(da, i - o), z3.If(i < length, byte(i), z3.IntVal(0))))
+            length = z3.If(o + ln > length, o + ln, length)
+        if a["has_new_length"]:
+            nl = Z(a["new_length"])
+            length = z3.If(nl < length, nl, length)
+        return [("length-is-reference-length", dl(c1) == length),
+                ("bytes-are-reference-bytes", forall_range(0, length, lambda i: view_at(c1, i) == byte(i))),
+                ("leases-unchanged", leases_same(c, c1))]
+
+    canary = None
+
+
+class CheckTestV(_MSF):
+    """check_testv: result <=> every (offset, length, b"eq", specimen) equals the clipped view slice; file unchanged."""
+    method = "check_testv"
+    level = "B"
+    bound = "test vectors of length 0..2 (offsets, lengths, specimens unbounded)"
+    cross_check = 20
+    empty_share = False
+
+    def inputs(self):
+        return {"file0": FileK(gen_container), "o1": IntK(0, rnd=lambda r: r.randint(0, 80)), "l1": IntK(0, rnd=lambda r: r.randint(0, 8)),
+                "s1": BytesArrK(rndmax=8), "o2": IntK(0, rnd=lambda r: r.randint(0, 80)), "l2": IntK(0, rnd=lambda r: r.randint(0, 8)),
+                "s2": BytesArrK(rndmax=8), "n": ChoiceK([0, 1, 2])}
+
+    def cases(self):
+        return [{"n": k} for k in (0, 1, 2)]
+
+    def requires(self, I, a):
+        c, n = as_arr(a["file0"])
+        return WF(c, n)
+
+    def tv(self, a):
+        return [(a["o1"], a["l1"], b"eq", a["s1"]), (a["o2"], a["l2"], b"eq", a["s2"])][:a["n"]]
+
+    def run(self, I, a):
+        put_file(I, "home", a["file0"])
+        v = I.call_value(self.target(I), [self.mk_self(I), self.tv(a)], {})
+        out = Outcome("return", v)
+        out.post = {"file": file_post(I, "home")}
+        return out
+
+    def native(self, a):
+        from allmydata.storage.mutable import MutableShareFile
+        with TempDir() as d:
+            p = os.path.join(d, "share")
+            with open(p, "wb") as fh:
+                fh.write(a["file0"])
+            ms = object.__new__(MutableShareFile)
+            ms.home = p
+            out = native_outcome(lambda: ms.check_testv(self.tv(a)))
+            out.post = {"file": open(p, "rb").read()}
+            return out
+
+    def match(self, c, o, l, s):
+        o, l = Z(o), Z(l)
+        sa, sl = as_arr(s)
+        end = z3.If(o + l < dl(c), o + l, dl(c))
+        want = z3.If(end - o > 0, end - o, 0)
+        return z3.And(sl == want, forall_range(0, want, lambda k: z3.Select(sa, k) == view_at(c, o + k)))
+
+    def ensures(self, I, a, out):
+        c, n = as_arr(a["file0"])
+        c1, n1 = as_arr(out.post["file"])
+        ms = [self.match(c, o, l, s) for (o, l, _, s) in self.tv(a)]
+        allm = z3.And(ms) if ms else z3.BoolVal(True)
+        r = out.value
+        r = z3.BoolVal(r) if isinstance(r, bool) else r
+        return [("result-iff-all-vectors-match-current-data", r == allm),
+                ("file-unchanged", z3.And(n1 == n, forall_range(0, n, lambda k: z3.Select(c1, k) == z3.Select(c, k))))]
+
+    def canary(self, I, a, out):
+        r = out.value
+        return [("canary", z3.BoolVal(r) if isinstance(r, bool) else r)]
+
+
+class EmptyShareCheckTestV(Spec):
+    """a missing share reads as empty: EmptyShare.check_testv <=> every specimen is b''."""
+    file = F
+    qualname = "EmptyShare.check_testv"
+    level = "B"
+    bound = "test vectors of length 0..2"
+    cross_check = 50
+
+    def inputs(self):
+        return {"o1": IntK(0), "l1": IntK(0), "s1": BytesArrK(rndmax=2), "o2": IntK(0), "l2": IntK(0), "s2": BytesArrK(rndmax=2),
+                "n": ChoiceK([0, 1, 2])}
+
+    def cases(self):
+        return [{"n": k} for k in (0, 1, 2)]
+
+    def tv(self, a):
+        return [(a["o1"], a["l1"], b"eq", a["s1"]), (a["o2"], a["l2"], b"eq", a["s2"])][:a["n"]]
+
+    def run(self, I, a):
+        return I.call_value(self.target(I), [SObj(self.module().EmptyShare), self.tv(a)], {})
+
+    def native(self, a):
+        from allmydata.storage.mutable import EmptyShare
+        return native_outcome(lambda: EmptyShare().check_testv(self.tv(a)))
+
+    def ensures(self, I, a, out):
+        ms = [as_arr(s)[1] == 0 for (_, _, _, s) in self.tv(a)]
+        r = out.value
+        r = z3.BoolVal(r) if isinstance(r, bool) else r
+        return [("result-iff-all-specimens-empty", r == (z3.And(ms) if ms else z3.BoolVal(True)))]
+
+    def canary(self, I, a, out):
+        r = out.value
+        return [("canary", z3.Not(z3.BoolVal(r) if isinstance(r, bool) else r))]
+
+
+class ReadV(CheckTestV):
+    method = "readv"
+    bound = "read vectors of length 0..2"
+
+    def inputs(self):
+        return {"file0": FileK(gen_container), "o1": IntK(0, rnd=lambda r: r.randint(0, 80)), "l1": IntK(0, rnd=lambda r: r.randint(0, 40)),
+                "o2": IntK(0, rnd=lambda r: r.randint(0, 80)), "l2": IntK(0, rnd=lambda r: r.randint(0, 40)), "n": ChoiceK([0, 1, 2])}
+
+    def tv(self, a):
+        return [(a["o1"], a["l1"]), (a["o2"], a["l2"])][:a["n"]]
+
+    def native(self, a):
+        from allmydata.storage.mutable import MutableShareFile
+        with TempDir() as d:
+            p = os.path.join(d, "share")
+            with open(p, "wb") as fh:
+                fh.write(a["file0"])
+            ms = object.__new__(MutableShareFile)
+            ms.home = p
+            out = native_outcome(lambda: ms.readv(self.tv(a)))
+            out.post = {"file": open(p, "rb").read()}
+            return out
+
+    def ensures(self, I, a, out):
+        c, n = as_arr(a["file0"])
+        c1, n1 = as_arr(out.post["file"])
+        g = [("one-result-per-vector", z3.BoolVal(len(out.value) == a["n"]))]
+        for i, ((o, l), r) in enumerate(zip(self.tv(a), out.value)):
+            g.append(("result-%d-is-clipped-view-slice" % i, self.match(c, o, l, r)))
+        g.append(("file-unchanged", z3.And(n1 == n, forall_range(0, n, lambda k: z3.Select(c1, k) == z3.Select(c, k)))))
+        return g
+
+    def canary(self, I, a, out):
+        return [("canary", z3.BoolVal(len(out.value) == 0))]
+
+
 def contracts(tier):
-    return [ReadShareData(), WriteShareData(), ChangeContainerSize()]
+    return [ReadShareData(), WriteShareData(), ChangeContainerSize(), WriteV(), WriteVShapes(), CheckTestV(),
+            EmptyShareCheckTestV(), ReadV()]
